@@ -68,7 +68,7 @@ step_lemma('CONSTANT', lambda b, m: ins(b, 'CONSTANT', b.sym('str', 'name'), b.s
 step_lemma('NOP / END_CTX change nothing', lambda b, m: ins(b, 'NOP'), [('nothing', "len(ghost('Dev')) == 0 and len(ghost('Clk')) == 0 and unchanged(self._reg.hue)")])
 
 # GET_COLOR: the colour registers of the current mode := FromRaw(device colour)
-for mode in ('LOGICAL', 'RAW'):
+for mode in ('LOGICAL', 'RAW', 'RGB'):
     c = contract(M, 'Machine._get_color', serves=['C01', 'C07'], unwrap=1, name='Machine._get_color[%s]' % mode)
     def _setup(b, case, mode=mode):
         col = PyList([b.sym('int', 'c%d' % i) for i in range(4)])
@@ -82,7 +82,16 @@ for mode in ('LOGICAL', 'RAW'):
         m.attrs['_reg'].attrs['name'] = n
         return {'self': m, 'light_set': ls, '_col': col}
     c.setup(_setup)
-    if mode == 'RAW':
+    if mode == 'RGB':
+        # the rgb registers hold the colour read (value = the largest component, all within 0..100); kelvin as read
+        # the rgb registers hold the colour read: their HSV (components / 100) is the device's raw colour / 65535; kelvin as read
+        RGBX = 'self._reg.red / 100, self._reg.green / 100, self._reg.blue / 100'
+        c.ensures('kelvin-as-read', 'self._reg.kelvin == _col[3]')
+        c.ensures('value-of-the-read-colour', 'hsv_v(%s) == real(_col[2]) / 65535' % RGBX)
+        c.ensures('saturation-of-the-read-colour', '_col[2] > 0 ==> hsv_s(%s) == real(_col[1]) / 65535' % RGBX)
+        c.ensures('hue-of-the-read-colour', '_col[2] > 0 and _col[1] > 0 and _col[0] < 65535 ==> hsv_h(%s) == real(_col[0]) / 65535' % RGBX)
+        c.ensures('grey-when-unsaturated', '_col[1] == 0 ==> self._reg.red == self._reg.green and self._reg.green == self._reg.blue')
+    elif mode == 'RAW':
         c.ensures('raw-values-as-read', 'self._reg.hue == _col[0] and self._reg.saturation == _col[1] and self._reg.brightness == _col[2] and self._reg.kelvin == _col[3]')
     else:
         c.ensures('logical-values-of-the-read-colour', 'self._reg.hue == real(_col[0]) / 65535 * 360 and self._reg.saturation == real(_col[1]) / 65535 * 100 '
